@@ -23,6 +23,10 @@ inductive Err
   | nanMember
   /-- kernel: `ensemb[j+1] < ensemb[j]` after sorting (`return EDOM`) -/
   | edom
+  /-- wrapper: `obs` still has more than one dimension after `squeeze` (`ValueError("obs is not 1D")`) -/
+  | obsNot1D
+  /-- `ens` with more than two dimensions: outside the modelled domain (documented input is `[n,p]`) -/
+  | ensNot2D
   deriving DecidableEq, Repr
 
 /-- per-bin state after the forecast loop (c_crps.c:91-165) -/
@@ -203,6 +207,44 @@ def wrapper (sort : List α → List α) (m : Nat) (obs : List (Option α)) (ens
     else match optAll (kept.map finiteRow) with
       | none => .error .nanMember
       | some rows => kernel sort m (rows.map (·.1)) (rows.map (·.2))
+
+
+/-! ### shape handling of `__check_ensemble_data` (metrics.py:32-45) -/
+
+/-- row-major `reshape(n, m)` of a flat buffer -/
+def reshape {β : Type} (m : Nat) : Nat → List β → List (List β)
+  | 0, _ => []
+  | n + 1, l => l.take m :: reshape m n (l.drop m)
+
+/-- shape of `obs` after `np.atleast_1d`, then — only when `ndim > 1` — `np.atleast_1d(obs.squeeze())`;
+more than one dimension left is `ValueError("obs is not 1D")` -/
+def obsForecasts (shape : List Nat) : Except Err Nat :=
+  let s1 := if shape.isEmpty then [1] else shape
+  let s2 := if 1 < s1.length then
+      (let q := s1.filter (fun d => d != 1); if q.isEmpty then [1] else q)
+    else s1
+  match s2 with
+  | [n] => .ok n
+  | _ => .error .obsNot1D
+
+/-- shape of `ens` after `np.atleast_2d` -/
+def ensDims (shape : List Nat) : Except Err (Nat × Nat) :=
+  match shape with
+  | [] => .ok (1, 1)
+  | [p] => .ok (1, p)
+  | [a, b] => .ok (a, b)
+  | _ => .error .ensNot2D
+
+/-- `metrics.crps(obs, ens)` on arrays given by shape and C-ordered flat data
+(`squeeze` and `atleast_nd` do not reorder the data) -/
+def wrapperNd (sort : List α → List α) (oshape : List Nat) (obs : List (Option α)) (eshape : List Nat)
+    (ens : List (Option α)) : Except Err (Result α) :=
+  match obsForecasts oshape with
+  | .error e => .error e
+  | .ok _ =>
+    match ensDims eshape with
+    | .error e => .error e
+    | .ok (n, m) => wrapper sort m obs (reshape m n ens)
 
 end
 end HydroVerif.C03
